@@ -5,7 +5,7 @@ import os
 import sys
 
 sys.path.insert(0, os.path.dirname(os.path.abspath(__file__)))
-from vcheck import Case
+from vcheck import Case, gzlist as vgz, gzmat as vgzmat
 import tgen
 import c04_util as U
 import c04_extra as X
@@ -13,63 +13,77 @@ import c04_w3 as W
 
 PROP = "C04"
 LEVEL = "proof"
-GEN_UNITS = ["GenUtils3", "GenMethods"]      # Props/C04Gen.v states one mode of the sparse region read over the GENERATED tt_renumberdim
-COQ_TARGETS = ["Props/C04.vo", "Props/C04Gen.vo", "Model/C04Harness.vo", "Model/C04Extra.vo", "Model/Harness.vo", "Props/W3C04.vo", "Props/W3Methods.vo"]
+GEN_UNITS = ["GenUtils3", "GenMethods", "GenUtils"]      # Props/C04Gen.v: sparse region read (all modes) and key dispatch over the GENERATED tt_renumberdim / tt_renumber / get_index_variant; Model/C04AsIs.v over tt_irenumber
+COQ_TARGETS = ["Props/C04.vo", "Props/C04Gen.vo", "Model/C04Harness.vo", "Model/C04Extra.vo", "Model/C04AsIs.vo", "Model/C04AdvVal.vo", "Model/C04W4Harness.vo", "Model/Harness.vo", "Props/W3C04.vo", "Props/W3Methods.vo"]
 THEOREM_FILES = ["Props/C04.v", "Props/C04Gen.v", "Props/W3C04.v", "Props/W3Methods.v"]
 COQ_IMPORTS = ("From Coq Require Import List ZArith Bool.\n"
-               "From PV Require Import Base.Index Np.Array Model.Sparse Model.Harness Model.C04Model Model.C04Harness Model.C04Extra.\n")
-RULE = ("a case is a HISTORY of 1-12 reads/writes applied to a dense and a sparse tensor from the same start state "
+               "From PV Require Import Base.Index Np.Array Model.Sparse Model.Harness Model.C04Model Model.C04Harness Model.C04Extra Model.C04AsIs Model.C04AdvVal Model.C04W4Harness.\n")
+RULE = ("a case is a HISTORY of 1-14 reads/writes applied to a dense and a sparse tensor from the same start state "
         "(empty, dense random, sparse with random stored order); after every step the returned value and the full raw state "
         "(shape,data | shape,subs,vals) are compared with the Coq model. Keys: full subscripts (negative ints), subscript arrays "
-        "(duplicates), linear int/list/slice, regions of ints/slices(open, closed, stepped, negative)/index lists; right-hand sides: "
-        "scalar, 0, value arrays mixing 0 and non-0, exactly shaped arrays/tensors; growth of extent and order. The input classes of "
-        "the REPAIRED findings (A-13, A-14, A-15, A-17, C04-N01..N03, N05..N07) are part of the ordinary streams, get a dedicated "
-        "stream each and their exact former witnesses are replayed as ordinary cases (a regression is a violation); only the classes "
-        "of the OPEN findings (A-16, C04-N04, C04-N11 repeated index in a sptensor region read, C04-N15 repeated index + sptensor operand whose winning value "
-        "is a zero or whose stored order is not its position order; C04-N14 on sptenmat) are kept out of the unattributed "
-        "streams (C04-N08/N09/N10/N12/N13 are repaired: ordinary inputs + regression witnesses). Extra streams: "
-        "w3 (start states built from C-ordered / non-contiguous / no-copy data, by computations and by reads; right-hand sides as C-ordered, "
-        "non-contiguous, integer arrays, lists, tensors / sptensors in other layouts and stored orders, numpy scalars, and the object returned "
-        "by the read just before: v = X[src]; X[dst] = v), key lists that REPEAT an index (reads, scalar / zero / value-array writes, empty "
-        "and non-empty receivers), np_adv (one read or scalar write through a key with index lists on a dense tensor: numpy's zipped selection or the outer "
-        "product, nothing else), tenmat_rw and sptenmat_set (histories on a matricised tensor: 2-way array of fixed shape; "
-        "out-of-range requests must raise). non-trivial = at least one write and one nonzero somewhere (np_adv: key in the A-16 "
-        "class); distinct = distinct history")
+        "(duplicates), linear int/list/slice, regions of ints/slices(open, closed, stepped, negative)/index lists (an index may be "
+        "repeated); right-hand sides: scalar, 0, value arrays mixing 0 and non-0, exactly shaped arrays/tensors; growth of extent and "
+        "order. The input classes of the 18 REPAIRED findings (A-13..A-15, A-17, C04-N01..N03, N05..N15) are part of the ordinary "
+        "streams, get a dedicated stream each and their exact former witnesses are replayed as ordinary cases (a regression is a "
+        "violation). The classes of the two OPEN findings are kept out of the ordinary streams and get their own streams in which "
+        "pyttb must show the specified behaviour OR exactly the as-is model (C04-N04: Model/C04AsIs.v over the GENERATED tt_irenumber; "
+        "A-16: the numpy-following dense history model check_dense_np) - a third behaviour is a violation; a case of these classes is "
+        "attributed to the finding only when the as-is model is not available for it (layout variants of operands, index lists next to "
+        "the C04-N04 slices). Extra streams: w3 (start states built from C-ordered / non-contiguous / no-copy data, by computations and "
+        "by reads; right-hand sides as C-ordered, non-contiguous, integer arrays, lists, tensors / sptensors in other layouts and stored "
+        "orders, numpy scalars, the object returned by the read just before, the SAME operand object re-used), overwrite (wave 4: an "
+        "array / tensor operand fills everything the receiver stores, then stored entries are overwritten in place, then read), np_adv "
+        "(one read, scalar write or VALUE-ARRAY write through a key with index lists on a dense tensor: numpy's zipped selection with "
+        "broadcasting or the outer product, nothing else), tenmat_rw and sptenmat_set (histories on a matricised tensor: 2-way array of "
+        "fixed shape; out-of-range requests must raise; sptenmat additionally RAW against the transliteration of __setitem__). In every "
+        "history each array / tensor operand of an earlier assignment is watched during all later steps (it must not change). "
+        "non-trivial = at least one write and one nonzero somewhere (np_adv: key in the A-16 class); distinct = distinct history")
 CORRESPONDENCE_ONLY = [
-    "dense keys of the A-16 class with a VALUE-ARRAY right-hand side (numpy broadcasting of the value against the zipped selection is "
-    "not modelled; reads and scalar writes are: np_adv_get / np_adv_set_scalar)",
-    "C04-N04 class (sparse tensor right-hand side through stepped / negative slices): pyttb's as-is tt_irenumber is not modelled here "
-    "(the translator builder states its as-is behaviour over Gen/GenUtils3.v in Props/W3C04.v); the model is the correct behaviour and "
-    "the class is attributed to the open finding",
+    "sptensor._set_subscripts (groups change / delete / insert, np.unique) and sptensor._set_subtensor (subdims deletion, khatrirao "
+    "enumeration, tt_irenumber of a sparse operand, repeated-index filter): the sparse model sp_set / sp_apply / sp_replace is the "
+    "specification-level algorithm of the refinement theorems, not a line-by-line transliteration; tied by raw state comparison "
+    "(stored order included) in the plain histories",
+    "tensor._set_linear / _set_subscripts / _set_subtensor (growth by zero padding, numpy scatter): dense model dense_assign, tied by raw "
+    "state comparison",
+    "sptensor.__getitem__(region): the subdims FILTER, the expansion of repeated list indices and the column selection are hand-modelled "
+    "(insideb / renumber_all / keepc); the renumbering itself (all modes) is the GENERATED tt_renumber (Props/C04Gen.v)",
+    "C04-N04 class (sparse tensor right-hand side through stepped / negative slices): as-is behaviour = Model/C04AsIs.v over the generated "
+    "tt_irenumber, executable, compared exactly; no theorem relates it to the specification (it violates it: open finding)",
+    "A-16 class in histories: numpy-following dense model check_dense_np, executable, compared exactly; the theorems about it are "
+    "C04_np_adv_in_region, C04_np_adv_set_values_exact / _in_region and the refutation C04_a16_dense_sparse_disagree",
     "stored order of a sparse state after a write / of the sptensor returned by a region read: compared raw in the plain histories, by "
     "denotation + well-formedness (check_sparse_den, stepping the model from the observed state) in histories whose order is not pinned "
     "(computed start states, sptensor right-hand sides in arbitrary order, repeated indices); not part of any theorem (the theorems "
-    "quantify over every stored order)",
+    "quantify over every stored order); sptenmat: pinned by the transliteration (raw comparison)",
     "how a start state is built (C-ordered / non-contiguous data, no-copy, results of computations and reads) and in which memory layout a "
-    "right-hand side arrives: the model has no notion of layout; the streams check that none of it is observable",
-    "sptensor.__getitem__(region) as a whole: ONE mode is proved over the generated tt_renumberdim (Props/C04Gen.v, keys whose lists do "
-    "not repeat an index); the subdims filter, the mode loop of tt_renumber and the column selection (kpdims) are tied by the streams only "
-    "(returned sptensor compared raw with sp_region_get in plain histories)",
-    "rejection of inadmissible requests (dense linear assignment at or beyond prod(shape), out-of-range (sp)tenmat subscripts)",
+    "right-hand side arrives: the model has no notion of layout; the streams check that none of it is observable; storage sharing "
+    "between receiver and operands: observed (operands watched over the whole history), not modelled (C05 owns aliasing)",
+    "tenmat.__getitem__ / __setitem__: numpy indexing on the 2-way data array = the dense step on a fixed shape (C04_tenmat_refine); no "
+    "separate transliteration (the method body is `self.data[key]`)",
+    "rejection of inadmissible requests (dense linear assignment at or beyond prod(shape), out-of-range (sp)tenmat subscripts): which "
+    "exception is raised is observed (AssertionError for malformed dense requests), not proved",
     "the mode split of a (sp)tenmat (which tensor entry a matrix entry is): the C04 theorems treat the matrix as a 2-way array; the "
     "streams check that rdims / cdims / tshape are untouched by entry access",
 ]
 ASSUMPTIONS = [
     "resolve_get/resolve_set (Python slice.indices semantics, negative indices, F-order linear indices, Cartesian regions) are the "
-    "meaning of a key; validated against pyttb/numpy on every history, not proved against CPython",
-    "right-hand sides are scalars or exactly shaped (one value per addressed position); numpy broadcasting of other shapes and boolean "
-    "masks are outside the theorem",
+    "meaning of a key; validated against pyttb/numpy on every history, not proved against CPython (C04_gen_slice_selection proves that "
+    "the specification's slice and the translator's numpy-layer slice are the same function)",
+    "right-hand sides are scalars or exactly shaped (one value per addressed position); numpy broadcasting of other shapes is modelled "
+    "only for keys with index lists on the dense side (np_bcast); boolean masks are not a key form of pyttb (get_index_variant has no "
+    "branch for them) and outside the property's list of key forms",
     "sptensor has no linear assignment (documented): such operations are inadmissible for the sparse class (sparse_op_ok)",
     "an index repeated inside a key list addresses its positions once per repetition; reads return them repeatedly, a value-array "
-    "write keeps the LAST value per position (numpy's behaviour on the dense side; the specification spec_set is sequential); the "
-    "former hypothesis elem_nodup of the sparse region-write theorems is gone (wave 3)",
-    "np_adv_positions (Model/C04Extra.v) as the meaning numpy gives to a key with index lists: validated against pyttb/numpy on the "
-    "np_adv stream, not proved against numpy's C code",
+    "write keeps the LAST value per position (numpy's behaviour on the dense side; the specification spec_set is sequential)",
+    "np_adv_positions / np_bcast (Model/C04Extra.v, C04AdvVal.v) as the meaning numpy gives to a key with index lists and to a value "
+    "array assigned through it: validated against pyttb/numpy on the np_adv stream, not proved against numpy's C code",
+    "the translator's numpy layer (Np/NpZ3.v) under the generated tt_renumberdim / tt_renumber / tt_irenumber / get_index_variant",
 ]
 EXPLANATION = ("Refinement: the dense and the sparse executable model each simulate the abstract array (shape, f) step by step "
-               "(theorems for all states/ops; on the sparse side in total form: specification and model accept together); the models "
-               "are tied to pyttb by histories compared state-by-state; failing histories are shrunk to a minimal prefix, minimal "
-               "operation set and minimal keys.")
+               "(theorems for all states/ops; on the sparse side in total form: specification and model accept together); the sparse "
+               "region read and the key dispatcher are stated over functions generated from the current source; sptenmat.__setitem__ is "
+               "transliterated and proved; the models are tied to pyttb by histories compared state-by-state; failing histories are "
+               "shrunk to a minimal prefix, minimal operation set and minimal keys.")
 
 def _hist_trigger(fid):
     t = U.make_trigger(fid)
@@ -78,6 +92,14 @@ def _hist_trigger(fid):
 
 TRIGGERS = {fid: _hist_trigger(fid) for fid in U.OPTRIG}
 TRIGGERS.update(X.TRIGGERS_EXTRA)
+# C04-N04: inside its class the check compares with the specification OR the as-is model over the generated tt_irenumber
+# (coq_check / Model/C04AsIs.v); only requests for which that model is not available are attributed
+_n04_class = TRIGGERS["C04-N04"]
+TRIGGERS["C04-N04"] = lambda case: _n04_class(case) and _n04_index(case.args) is None
+# A-16: likewise, a dense history with a key of the class is compared with the specification OR the numpy-following model
+# (check_dense_np); attributed only when that model is not available (layout variants of the operands, mk variants)
+_a16_class = TRIGGERS["A-16"]
+TRIGGERS["A-16"] = lambda case: _a16_class(case) and not _a16_available(case.args)
 
 
 # ------------------------------------------------------------------------------------------------
@@ -474,6 +496,69 @@ def defect_case(rng, fid):
     return None
 
 
+def overwrite_case(rng):
+    """wave 4 (operand / receiver storage): an ARRAY or TENSOR operand is assigned to a region that holds everything the receiver
+    stores afterwards (whole tensor, or a block of a receiver without entries), then entries that now exist are overwritten in
+    place (single position, subscript rows, scalar block), then everything is read.  The operand handed over in the first step
+    is watched during all later steps (run_class: it must not change) and the receiver must follow the array semantics"""
+    for _ in range(50):
+        classes = rng.choice([["dense", "sparse"], ["sparse"], ["dense", "sparse"], ["dense"]])
+        start = gen_start(rng, rng.choice(["zero", "zero", "sparse", "dense"]))
+        st = U.start_state(start)
+        shape, f = st
+        n = len(shape)
+        if not n:
+            continue
+        if f or rng.random() < 0.5:
+            es = [rng.choice([["s", None, None, None], ["s", 0, d, None]]) for d in shape]      # whole tensor
+        else:
+            es = []
+            for d in shape:
+                a = rng.randrange(d)
+                es.append(["s", a, rng.randint(a + 1, d), None])
+        key = ["region", es]
+        try:
+            _, asg = U.resolve_set(shape, key, ["scalar", 1])
+        except U.Inadmissible:
+            continue
+        if not 1 <= len(asg) <= 36:
+            continue
+        vals = [_val(rng, 0.3) for _ in asg]
+        if not any(vals):
+            vals[0] = 4
+        ops = [["set", key, ["values", vals]]]
+        try:
+            st, _ = U.spec_step(st, ops[0])
+            for _ in range(rng.randint(1, 3)):
+                live = sorted(st[1])
+                if not live:
+                    break
+                p = list(rng.choice(live))
+                r = rng.random()
+                if r < 0.4:
+                    op = ["set", ["region", [["i", x] for x in p]], ["scalar", _val(rng)]]
+                elif r < 0.75:
+                    rows = [p] + ([list(rng.choice(live))] if rng.random() < 0.5 else [])
+                    rows = [list(t) for t in dict.fromkeys(tuple(x) for x in rows)]
+                    op = ["set", ["subs", rows], ["values", [_val(rng) for _ in rows]]]
+                else:
+                    op = ["set", ["region", [["s", x, x + 1, None] for x in p]], ["scalar", _val(rng)]]
+                if U.op_triggers(st, op, classes):
+                    continue
+                st, _ = U.spec_step(st, op)
+                ops.append(op)
+        except U.Inadmissible:
+            continue
+        if len(ops) < 2:
+            continue
+        ops.append(["get", ["linslice", None, None, None]])
+        # the operand OBJECT of the first write is assigned once more to the same region (it must still hold its values)
+        ops.append(["set", key, ["values", list(vals)], "reuse0"])
+        ops.append(["get", ["linslice", None, None, None]])
+        return Case("history", {"start": start, "ops": ops, "classes": classes}, True, {"profile": "overwrite"})
+    return None
+
+
 def gen_cases(rng, tier):
     big = tier == "thorough"
     cases = []
@@ -496,6 +581,10 @@ def gen_cases(rng, tier):
             c = gen_w3_history(rng, classes)
             if c:
                 cases.append(c)
+    for _ in range(400 if big else 40):
+        c = overwrite_case(rng)
+        if c:
+            cases.append(c)
     cases.extend(X.gen_cases_extra(rng, tier, _gen_slice, _val))
     for fid, a in REGRESSION_ARGS.items():
         cases.append(Case("history", copy.deepcopy(a), True, {"profile": "regression:" + fid}))
@@ -575,10 +664,12 @@ def run_class(ttb, np, cls, args, start_out=None):
     steps = []
     last = None
     last_rhs = None
+    operands = []        # wave 4: every array / tensor operand of an earlier assignment, with its content at that time
     for k, op in enumerate(args["ops"]):
         out = None
         exc = None
         rhs_changed = None
+        rhs_sp = None
         try:
             with warnings.catch_warnings():
                 warnings.simplefilter("ignore")
@@ -591,15 +682,24 @@ def run_class(ttb, np, cls, args, start_out=None):
                     rv = W.variant_of(op, cls)
                     if rv == "reuse" and last_rhs is not None and last_rhs[1] == op[2] and last_rhs[2] == W.kept_or_none(X.shape, op[1]):
                         val = last_rhs[0]              # the very same operand object as in the write before
+                    elif rv == "reuse0" and operands and operands[0][0] == 0:
+                        val = operands[0][1]           # wave 4: the operand object of the FIRST write, kept over the whole history
                     else:
                         val = _py_rhs(ttb, np, cls, X.shape, op[1], op[2], k, rv, last)
                     snap = W.snapshot(ttb, np, val)
+                    rhs_sp = None
+                    if snap and snap[0] == "sptensor" and op[1][0] == "region":
+                        rhs_sp = [snap[1], snap[2], [tgen.exact(x) for r in snap[3] for x in (r if isinstance(r, list) else [r])]]
+                        if not rhs_sp[2]:
+                            rhs_sp[1] = []          # np.array([], ndmin=2).tolist() == [[]]
                     last_rhs = (val, op[2], W.kept_or_none(X.shape, op[1]))
                     try:
                         X[pk] = val
                     finally:
                         if W.snapshot(ttb, np, val) != snap:
                             rhs_changed = f"{snap} -> {W.snapshot(ttb, np, val)}"
+                        elif snap is not None and rv != "prev" and not any(v is val for _, v, _ in operands):   # (read results: C05's domain)
+                            operands.append((k, val, snap))
                     out = ["none"]
                     last = None
         except Exception as ex:      # noqa: BLE001
@@ -608,11 +708,50 @@ def run_class(ttb, np, cls, args, start_out=None):
             stt = _obs_state(np, cls, X)
         except Exception as ex:      # noqa: BLE001
             stt = {"broken": type(ex).__name__ + ": " + str(ex)[:120]}
+        if rhs_changed is None:
+            # an operand handed over in an EARLIER step must not change when the receiver is written later (no shared storage)
+            for k0, v0_, s0 in operands:
+                if k0 < k and W.snapshot(ttb, np, v0_) != s0:
+                    rhs_changed = f"operand of step {k0} changed during step {k}: {s0} -> {W.snapshot(ttb, np, v0_)}"
+                    break
         steps.append({"state": stt, "out": out, "exc": exc})
+        if op[0] == "set" and rhs_sp is not None:
+            steps[-1]["rhs_sp"] = rhs_sp          # raw (shape, subs, vals) of a sptensor operand, for the as-is model of C04-N04
         if rhs_changed:
             steps[-1]["rhs_changed"] = rhs_changed
         if "broken" in stt:
             break
+    # wave 4: the receiver must not share storage with an operand it was given earlier: every kept operand is now written to
+    # (through its public __setitem__ where it has one, and in place in its value storage) and the receiver is re-observed
+    if steps and "broken" not in steps[-1]["state"] and not steps[-1].get("rhs_changed"):
+        before = steps[-1]["state"]
+        for k0, val, _ in operands:
+            with warnings.catch_warnings():
+                warnings.simplefilter("ignore")
+                for poke in ("setitem", "storage"):
+                    try:
+                        if isinstance(val, ttb.sptensor) and val.nnz:
+                            if poke == "setitem":
+                                val[tuple(int(x) for x in val.subs[-1])] = 12345.0
+                            else:
+                                val.vals += 1000
+                        elif isinstance(val, ttb.tensor) and val.data.size:
+                            if poke == "setitem":
+                                val[tuple(0 for _ in val.shape)] = 12345.0
+                            else:
+                                val.data += 1000
+                        elif isinstance(val, np.ndarray) and val.size and val.flags.writeable and poke == "storage":
+                            val += 1000
+                    except Exception:      # noqa: BLE001  (the poke itself is not under test)
+                        pass
+            try:
+                after = _obs_state(np, cls, X)
+            except Exception as ex:      # noqa: BLE001
+                after = {"broken": type(ex).__name__ + ": " + str(ex)[:120]}
+            if after != before:
+                steps[-1]["rhs_changed"] = (f"the receiver changed when the operand of step {k0} was written to AFTER the history "
+                                            f"(shared storage): {before} -> {after}")
+                break
     return steps
 
 
@@ -645,53 +784,144 @@ def _g_sparse_state(s):
     return tgen.gsparse(s["shape"], s["subs"], s["vals"])
 
 
+def _n04_index(a):
+    """index of the first operation of a plain sparse history that lies in the class of the open finding C04-N04 AND for which
+    the as-is model (Model/C04AsIs.v over the GENERATED tt_irenumber) is available: key of integers and slices only, operand
+    built by the plain route, stored order pinned; None otherwise"""
+    if "sparse" not in a["classes"] or a.get("mk") or W.order_free(a):
+        return None
+    st = U.start_state(a["start"])
+    for k, op in enumerate(a["ops"]):
+        if U.optrig_n04(st, op):
+            ok = len(op) == 3 and all(e[0] != "l" for e in op[1][1]) and len(op[1][1]) == len(st[0])
+            return k if ok else None
+        try:
+            st, _ = U.spec_step(st, op)
+        except U.Inadmissible:
+            return None
+    return None
+
+
+def _asis_expr(a, steps, k):
+    """Gallina bool: the history follows the specification up to step k and step k is the AS-IS model; None if not expressible"""
+    if len(steps) <= k or any("broken" in s["state"] for s in steps[:k + 1]):
+        return None
+    for s in steps[:k]:
+        if not _ints(s["state"]["vals"]) or any(x < 0 for r in s["state"]["subs"] for x in r) or s.get("rhs_changed"):
+            return None
+        if s["out"] and s["out"][0] == "vals" and not _ints(s["out"][1]):
+            return None
+        if s["out"] and s["out"][0] in ("sparse", "dense"):
+            return None
+    sk = steps[k]
+    y = sk.get("rhs_sp")
+    if y is None or not _ints(sk["state"]["vals"]) or not _ints(y[2]) or sk.get("rhs_changed"):
+        return None
+    op = a["ops"][k]
+    st0 = tgen.gsparse(a["start"]["shape"], a["start"]["subs"], a["start"]["vals"])
+    pre = U.g_ops(a["ops"][:k])
+    preobs = "[" + "; ".join(f"({_g_sparse_state(s['state'])}, {U.g_xout(None if s['exc'] else s['out'])})" for s in steps[:k]) + "]"
+    if k == 0:
+        preobs = "(@nil (sparse Z * option xout))"
+    es = "[" + "; ".join(U.g_elem(e) for e in op[1][1]) + "]"
+    Y = tgen.gsparse(y[0], y[1], y[2])
+    raw = f"(mkRaw {vgz(sk['state']['shape'])} {vgzmat(sk['state']['subs'])} {vgz(sk['state']['vals'])})"
+    return f"asis_history_ok {st0} {pre} {preobs} {es} {Y} {raw} {'true' if sk['exc'] else 'false'}"
+
+
+def _a16_available(a):
+    """a dense history containing a key of the A-16 class for which the numpy-following model (Model/C04AdvVal.v check_dense_np)
+    is available: plain start, right-hand sides built by the plain route (exactly shaped arrays / tensors)"""
+    if "dense" not in a["classes"] or (a.get("mk") or {}).get("dense") or a.get("malformed"):
+        return False
+    if any(op[0] == "set" and len(op) > 3 for op in a["ops"]):
+        return False
+    return any(U.key_is_a16(op[1]) for op in a["ops"])
+
+
+def _dense_np_expr(a, steps):
+    if len(steps) != len(a["ops"]) or any("broken" in s["state"] for s in steps):
+        return None
+    for s in steps:
+        if not _ints(s["state"]["data"]) or s.get("rhs_changed"):
+            return None
+        if s["out"] and s["out"][0] == "vals" and not _ints(s["out"][1]):
+            return None
+        if s["out"] and s["out"][0] == "dense" and not _ints(s["out"][2]):
+            return None
+    st0 = tgen.gdense(a["start"]["shape"], a["start"]["data"] if a["start"]["shape"] else [])
+    obs = "[" + "; ".join(f"({_g_dense_state(s['state'])}, {U.g_xout(None if s['exc'] else s['out'])})" for s in steps) + "]"
+    return f"check_dense_np {st0} {U.g_ops(a['ops'])} {obs}"
+
+
+def _class_expr(a, o, cls):
+    """Gallina bool for one class: pyttb's steps follow the specification (the executable models of the refinement theorems)"""
+    parts = []
+    steps = o[cls]
+    ops = a["ops"]
+    if len(steps) != len(ops) or any("broken" in s["state"] for s in steps):
+        return "false"
+    for s, op in zip(steps, ops):
+        vals = s["state"]["data"] if cls == "dense" else s["state"]["vals"]
+        if not _ints(vals) or s.get("rhs_changed"):
+            return "false"
+        if s["out"] and s["out"][0] in ("vals",) and not _ints(s["out"][1]):
+            return "false"
+        if cls == "sparse" and len(s["state"]["vals_shape"]) != 2 and s["state"]["vals"]:
+            return "false"
+        if cls == "sparse" and any(x < 0 for r in s["state"]["subs"] for x in r):
+            return "false"          # negative stored subscripts cannot be written as nat literals: ill-formed anyway
+        if s["out"] and s["out"][0] == "sparse" and (any(x < 0 for r in s["out"][2] for x in r) or not _ints(s["out"][3])):
+            return "false"
+        if s["out"] and s["out"][0] == "dense" and not _ints(s["out"][2]):
+            return "false"
+        # a deliberately malformed request must be REJECTED by pyttb itself (AssertionError), not crash inside numpy
+        if a.get("malformed") and s["exc"] and not s["exc"].startswith("AssertionError"):
+            return "false"
+    so = (o.get("start") or {}).get(cls)
+    want0 = tgen.gdense(a["start"]["shape"], a["start"]["data"] if a["start"]["shape"] else [])
+    if so is not None:
+        if "broken" in so or not _ints(so["data"] if cls == "dense" else so["vals"]):
+            return "false"
+        if cls == "sparse" and any(x < 0 for r in so["subs"] for x in r):
+            return "false"
+    if cls == "dense":
+        st0 = want0
+        if so is not None:
+            parts.append(f"start_dense_ok {_g_dense_state(so)} {want0}")
+        obs = "[" + "; ".join(f"({_g_dense_state(s['state'])}, {U.g_xout(None if s['exc'] else s['out'])})" for s in steps) + "]"
+        parts.append(f"check_dense {st0} {U.g_ops(ops)} {obs}")
+    else:
+        st0 = tgen.gsparse(a["start"]["shape"], a["start"]["subs"], a["start"]["vals"])
+        if so is not None:          # the model starts from the raw state pyttb built (any stored order)
+            st0 = _g_sparse_state(so)
+            parts.append(f"start_sparse_ok {st0} {want0}")
+        obs = "[" + "; ".join(f"({_g_sparse_state(s['state'])}, {U.g_xout(None if s['exc'] else s['out'])})" for s in steps) + "]"
+        parts.append(f"{'check_sparse_den' if W.order_free(a) else 'check_sparse'} {st0} {U.g_ops(ops)} {obs}")
+    return " && ".join(f"({p})" for p in parts)
+
+
 def coq_check(c, o):
     if c.op in X.OPS:
         return X.check_extra(c, o)
     a = c.args
     parts = []
+    k04 = _n04_index(a)
     for cls in a["classes"]:
-        steps = o[cls]
-        ops = a["ops"] if cls == "dense" else a["ops"]
-        if len(steps) != len(ops) or any("broken" in s["state"] for s in steps):
-            return "false"
-        for s, op in zip(steps, ops):
-            vals = s["state"]["data"] if cls == "dense" else s["state"]["vals"]
-            if not _ints(vals) or s.get("rhs_changed"):
-                return "false"
-            if s["out"] and s["out"][0] in ("vals",) and not _ints(s["out"][1]):
-                return "false"
-            if cls == "sparse" and len(s["state"]["vals_shape"]) != 2 and s["state"]["vals"]:
-                return "false"
-            if cls == "sparse" and any(x < 0 for r in s["state"]["subs"] for x in r):
-                return "false"          # negative stored subscripts cannot be written as nat literals: ill-formed anyway
-            if s["out"] and s["out"][0] == "sparse" and (any(x < 0 for r in s["out"][2] for x in r) or not _ints(s["out"][3])):
-                return "false"
-            if s["out"] and s["out"][0] == "dense" and not _ints(s["out"][2]):
-                return "false"
-            # a deliberately malformed request must be REJECTED by pyttb itself (AssertionError), not crash inside numpy
-            if a.get("malformed") and s["exc"] and not s["exc"].startswith("AssertionError"):
-                return "false"
-        so = (o.get("start") or {}).get(cls)
-        want0 = tgen.gdense(a["start"]["shape"], a["start"]["data"] if a["start"]["shape"] else [])
-        if so is not None:
-            if "broken" in so or not _ints(so["data"] if cls == "dense" else so["vals"]):
-                return "false"
-            if cls == "sparse" and any(x < 0 for r in so["subs"] for x in r):
-                return "false"
-        if cls == "dense":
-            st0 = want0
-            if so is not None:
-                parts.append(f"start_dense_ok {_g_dense_state(so)} {want0}")
-            obs = "[" + "; ".join(f"({_g_dense_state(s['state'])}, {U.g_xout(None if s['exc'] else s['out'])})" for s in steps) + "]"
-            parts.append(f"check_dense {st0} {U.g_ops(ops)} {obs}")
-        else:
-            st0 = tgen.gsparse(a["start"]["shape"], a["start"]["subs"], a["start"]["vals"])
-            if so is not None:          # the model starts from the raw state pyttb built (any stored order)
-                st0 = _g_sparse_state(so)
-                parts.append(f"start_sparse_ok {st0} {want0}")
-            obs = "[" + "; ".join(f"({_g_sparse_state(s['state'])}, {U.g_xout(None if s['exc'] else s['out'])})" for s in steps) + "]"
-            parts.append(f"{'check_sparse_den' if W.order_free(a) else 'check_sparse'} {st0} {U.g_ops(ops)} {obs}")
+        e = _class_expr(a, o, cls)
+        if cls == "sparse" and k04 is not None:
+            # inside the class of the open finding C04-N04: the specified behaviour OR exactly the as-is model built from the
+            # GENERATED tt_irenumber; anything else is a violation (the trigger does not attribute these cases)
+            alt = _asis_expr(a, o[cls], k04)
+            if alt is not None:
+                e = f"({e}) || ({alt})"
+        if cls == "dense" and _a16_available(a):
+            # inside the class of the open finding A-16: the specified behaviour (outer product) OR numpy's advanced indexing
+            # for every key with an index list, consistently over the whole history; anything else is a violation
+            alt = _dense_np_expr(a, o[cls])
+            if alt is not None:
+                e = f"({e}) || ({alt})"
+        parts.append(e)
     return " && ".join(f"({p})" for p in parts)
 
 
